@@ -366,6 +366,8 @@ func C03(ctx *core.Ctx) {
 
 	c03ResponseOutlivesContext(ctx, r)
 	c03TransmitOnce(ctx, r)
+	ctx.Rule("C03.R16", "a received request is handed to the processor once: one call site per serving function reaches FProcessor.Process", 3)
+	processOnce(ctx, r, "C03.R16")
 	ctx.Rule("C03.R13", "the reply reaches the caller that is waiting for it: every Request registers a per-call, buffered result channel before it sends (the registry hands a reply over without blocking and drops it when nobody can take it) and removes it on every exit", 2)
 	for _, req := range r.Impl("FTransport", "Request") {
 		c01Request(ctx, r, req, "C03.R13", "")
